@@ -2,14 +2,17 @@ INIT OInit
 NEXT ONext
 CONSTANTS
   Species = {"A", "B", "C", "D"}
-  Catalog <- Cat4
+  Catalog <- Cat3
   MaxR = 2
   KVals <- K3
   Orders <- OrdOne
   FullOrder = FALSE
   Points <- Pts1
-  Feeds <- Fd1
-  Configs <- CfgSym
+  Feeds <- FdKinds
+  PhaseMaps <- Ph1
+  ReKVals <- NoReK
+  MaxHist = 0
+  Configs <- CfgMixQ
   Comp <- CompDef
 INVARIANT FreeVsInlinedAgree
 INVARIANT ConfigOnlyChangesFreeSymbols
@@ -19,6 +22,5 @@ INVARIANT ParamsAreTheFreeSymbols
 INVARIANT UntouchedOnlyFeed
 INVARIANT RatePolyMatches
 INVARIANT OTypeOK
-INVARIANT PolyAgreesWithFold
 INVARIANT EmitBuild
 CHECK_DEADLOCK FALSE
